@@ -49,6 +49,16 @@ CHECKS = {
           "Oracle: after close every send that returned Ok is received, later sends fail Closed{gracefully:true}, closed() resolves; after receiver drop later sends fail Closed{gracefully:false} and received is a prefix; after sender drop the receiver gets everything then end-of-stream; nothing hangs.",
           "Port level; typed channels are exercised through C04/C05 scenarios. select! fairness fixed per seed.",
           "DESIGN.md 4/C11"),
+  "C04": ("model_checking",
+          "bounded exhaustive item-sequence enumeration on real base / lr / mpsc / oneshot channels with a per-sender prefix oracle; deviation-bounded schedule exploration for scripts without helper threads",
+          "All item sequences of depth 4/5 (buffered) and 3/4 (streamed) over {value, streamed value, serialization failure early/late, over sender limit, over receiver limit, undecodable, send cancelled at poll p} with at most 2 failing items, on base and lr channels, pairs of scripts on mpsc with 2 remote + 1 local sender, oneshot batches. Oracle: per sender the received values are a duplicate-free ordered prefix of the successfully sent receivable items, payload byte-exact, a failing item is never delivered, no gap, no loss unless the channel ended, receiver errors <= failing items.",
+          "Items above max_data_size use spawn_blocking helper threads that cannot be scheduled by any installed tool: those scenarios are input-exhaustive only (free-running schedule), labelled in the evidence.",
+          "DESIGN.md 4/C04"),
+  "C05": ("model_checking",
+          "bounded exhaustive enumeration of value shapes x channel-half kinds x hops x port limits on real endpoints with a unique-label wiring oracle; deviation-bounded schedule exploration of core shapes",
+          "1..4 halves of 11 kinds (mpsc/oneshot/watch/lr/bin sender and receiver halves, broadcast receiver) placed in vec / option / map / tuple / enum / nested containers, forwarded over 1..3 connections, with queued items at hand-over, low credit, max_ports exhaustion on all or only the receiving endpoint. Every half is exercised with a label unique to its channel: it must arrive at its counterpart and nowhere else; when a half cannot be connected both ends must report an error within the horizon; a failing value must not wedge the carrying channel.",
+          "Values stay below max_data_size (no helper threads). lr halves are documented as non-forwardable and are expected to fail cleanly over >= 2 hops.",
+          "DESIGN.md 4/C05"),
 }
 
 NOT_YET = "check not built yet in this session (design in DESIGN.md section 4); not claimed"
